@@ -12,7 +12,8 @@ from hv.base import ShardResult, Violation
 PROP = "C13"
 RULE = ("generated strongly connected street graphs (4-14 nodes on a jittered grid: Hamiltonian cycle + extra one-way and two-way streets, "
         "lengths >= straight line x [1, 1.6], speeds 5-120 km/h, some edges without speed), the shipped Denver graph and the straight-line "
-        "network; position pairs built from link starts / ends / interior cells and snapped arbitrary cells, including the same link in both "
+        "network; position pairs built from link starts / ends / interior cells, snapped arbitrary cells and mid-link vehicle positions (the cell "
+        "of the (lat, lon)-interpolated point, which may lie off the link's grid line), including the same link in both "
         "orders, opposite directions of one street, adjacent links and identical positions; validity predicate on route(o, d): empty iff o == d; "
         "first link starts at o's cell on o's link, last link ends at d's cell on d's link, consecutive links join end to start, every link id "
         "resolves, every inner link is a graph edge; position_from_geoid(cell) names an existing link and a cell on that link's h3 line. "
@@ -20,7 +21,7 @@ RULE = ("generated strongly connected street graphs (4-14 nodes on a jittered gr
 ASSUMPTIONS = ["street graphs are strongly connected, node ids are ints and there are no parallel edges (the link table keeps one link per ordered node pair), as OSMRoadNetwork requires",
                "the OSM loader workaround (node_link_graph(edges='links')) is used because OSMRoadNetwork.from_file cannot read the shipped JSON under the installed networkx",
                "PYTHONHASHSEED pinned to 0"]
-FLOORS = {"quick": {"pairs": 2000, "flag:inner_links": 350, "flag:same_link_backwards": 50, "flag:opposite_directions": 20}, "thorough": {"pairs": 100000}}
+FLOORS = {"quick": {"pairs": 2000, "flag:inner_links": 350, "flag:same_link_backwards": 50, "flag:opposite_directions": 20, "flag:off_grid_line_interior": 30}, "thorough": {"pairs": 100000}}
 
 
 @st.composite
@@ -102,7 +103,10 @@ def check_case(case: Dict[str, Any]) -> Tuple[List[Violation], Set[str], Dict[st
             if l is None:
                 bad(f"snapped {nm} names a link that does not exist")
             elif osm and p.geoid not in h3.h3_line(l.start, l.end):
-                bad(f"snapped {nm} does not lie on the link it names")
+                if (os_ if nm == "origin" else ds_)[0] == "along":
+                    flags.add("off_grid_line_interior")  # a mid-link vehicle position, not a snapped one
+                else:
+                    bad(f"snapped {nm} does not lie on the link it names")
         r = rn.route(o, d)
         if not r:
             if o != d:
@@ -142,7 +146,7 @@ def check_case(case: Dict[str, Any]) -> Tuple[List[Violation], Set[str], Dict[st
                     break
             if len(r) > 2:
                 flags.add("inner_links")
-            if o.link_id == d.link_id:
+            if o.link_id == d.link_id and "along" not in (os_[0], ds_[0]):
                 line = h3.h3_line(rn.link_from_link_id(o.link_id).start, rn.link_from_link_id(o.link_id).end)
                 if line.index(d.geoid) < line.index(o.geoid):
                     flags.add("same_link_backwards")
